@@ -228,4 +228,24 @@ Section Refine.
     destruct (step P cf st e) as [st1 o1]. cbn [fst snd] in *.
     rewrite (IH st1 Hi1). destruct (run P cf st1 r) as [st2 o2]. reflexivity.
   Qed.
+  (* C10, timed: the expiry timer drops EXACTLY the connections that have not registered (Hello) within
+     auth_timeout — never a registered one, never a younger one — and keeps the others in order; the
+     slots of the dropped ones are free at once (n_incomplete counts what is left) *)
+  Theorem tick_exact (st : state A S) d : Inv cf st ->
+    s_conns (fst (step P cf st (ETick d))) =
+    filter (fun x => c_active x || (s_now st + d - c_since x <? auth_timeout cf)) (s_conns st).
+  Proof.
+    intros Hi. cbn [step]. unfold expire. cbn [s_now s_conns s_core].
+    rewrite (expire_list_filter (s_now st + d) (s_conns st) (s_core st) (pre_sorted _ _ (inv_pre _ _ Hi))). cbn [fst s_conns].
+    apply filter_ext. intros x. rewrite expired_forget. destruct (c_active x); cbn [negb andb orb]; [reflexivity|].
+    destruct (auth_timeout cf <=? s_now st + d - c_since x) eqn:E1, (s_now st + d - c_since x <? auth_timeout cf) eqn:E2; cbn [negb]; try reflexivity; lia.
+  Qed.
+
+  Corollary tick_never_drops_registered (st : state A S) d x : Inv cf st ->
+    In x (s_conns st) -> c_active x = true -> In x (s_conns (fst (step P cf st (ETick d)))).
+  Proof. intros Hi Hin Ha. rewrite (tick_exact st d Hi). apply filter_In. split; [exact Hin|]. rewrite Ha. reflexivity. Qed.
+
+  Corollary tick_drops_overdue (st : state A S) d x : Inv cf st ->
+    In x (s_conns (fst (step P cf st (ETick d)))) -> c_active x = false -> s_now st + d - c_since x < auth_timeout cf.
+  Proof. intros Hi Hin Ha. rewrite (tick_exact st d Hi) in Hin. apply filter_In in Hin. destruct Hin as [_ H]. rewrite Ha in H. cbn [orb] in H. lia. Qed.
 End Refine.
